@@ -563,6 +563,10 @@ func cmdStorage(prop string, seed uint64, n int, depth int, out string) {
 	rec = func(prefix []int) {
 		if len(prefix) == depth {
 			tag := "ex" + strings.Trim(strings.ReplaceAll(fmt.Sprint(prefix), " ", "."), "[]")
+			if !want(tag) {
+				hist++
+				return
+			}
 			tr.Hist(tag, 0)
 			r := newStorageRun(tr, rep, hist, tag, rng)
 			for _, k := range prefix {
@@ -584,6 +588,10 @@ func cmdStorage(prop string, seed uint64, n int, depth int, out string) {
 	for h := 0; h < n; h++ {
 		hr := rng.Fork(uint64(h))
 		tag := fmt.Sprintf("rnd%d", h)
+		if !want(tag) {
+			hist++
+			continue
+		}
 		tr.Hist(tag, 0)
 		r := newStorageRun(tr, rep, hist, tag, hr)
 		steps := 20 + hr.Intn(60)
